@@ -194,7 +194,11 @@ def base_mpu(rng, deny_kind, deny_shape):
             mpu[i] = (1 | rs << 1 | (rng.getrandbits(8) if rs >= 7 and rng.random() < 0.4 else 0) << 8, base, rng.choice([0, 1, 2, 3, 5, 6]) << 8)
     mpu[9] = (1 | 11 << 1, G.DATA, 3 << 8)
     ap = {'none': 0, 'privonly': 1, 'readonly_user': 2, 'readonly': 6, 'priv_readonly': 5}.get(deny_kind, 0)
-    if deny_shape == '32B':
+    if deny_shape == '4B':
+        # the smallest region there is: ONE word, at BOUND + 4, so that the word in front of it (BOUND) is doubleword aligned - a transfer that
+        # treats an aligned pair as one 64-bit access and looks up only its first word runs straight through it
+        mpu[DREG] = (1 | 1 << 1, BOUND + 4, ap << 8)
+    elif deny_shape == '32B':
         mpu[DREG] = (1 | 4 << 1, BOUND, ap << 8)
     elif deny_shape == '256B-sub':
         sd = rng.getrandbits(8) & ~1            # subregion 0 (the one at BOUND) stays enabled, others seeded
@@ -225,7 +229,7 @@ def gen_deny(rng):
     priv = mode != 'usr'
     kinds = ['none', 'background'] + (['privonly', 'readonly_user'] if not priv else ['priv_readonly']) + ['readonly']
     deny_kind = rng.choice(kinds)
-    shape = rng.choice(['32B', '256B-sub', '2KB'])
+    shape = rng.choice(['32B', '256B-sub', '2KB', '4B'] if deny_kind != 'background' else ['32B', '256B-sub', '2KB'])
     pc_load = rng.random() < 0.3
     arch = rng.choice([6, 7, 7])
     srs = mode == 'svc' and rng.random() < 0.25
@@ -263,7 +267,8 @@ def gen_deny(rng):
             break
     else:
         raise RuntimeError('no usable load/store word found')
-    return {'scenario': 'deny_at_k', 'cores': [core], 'meta': meta, 'word': w, 'deny_kind': deny_kind, 'shape': shape, 'events': [], 'max_ticks': 400}
+    return {'scenario': 'deny_at_k', 'cores': [core], 'meta': meta, 'word': w, 'deny_kind': deny_kind, 'shape': shape, 'events': [], 'max_ticks': 400,
+            'bound': BOUND + 4 if shape == '4B' else BOUND}
 
 
 def _with_deny(core, on, bg=False):
@@ -401,12 +406,13 @@ def run_deny(case):
     log0 = clean['log']
     cls = clean['cls']
     word = case['word']
+    bound = case.get('bound', BOUND)
     mode = M.MODES[meta['mode']]
     priv = mode != 0x10
     for k in range(len(log0)):
         off_k, size_k, wr_k = log0[k]
         addr_k = G.DATA + off_k
-        delta = BOUND - addr_k
+        delta = bound - addr_k
         shifted, rn = _shift_base(core, meta, word, delta)
         if shifted is None:
             count('probe.k-skipped-no-base')
@@ -414,14 +420,14 @@ def run_deny(case):
         # re-learn with the shifted base, deny region off
         c2 = probe_clean(shifted, meta)
         ticks += 2
-        if c2 is None or len(c2['log']) != len(log0) or c2['log'][k][0] + G.DATA != BOUND or any(o + s > BOUND - G.DATA for o, s, _ in c2['log'][:k]) \
-                or any(o + G.DATA < BOUND for o, s, _ in c2['log'][k:]):
+        if c2 is None or len(c2['log']) != len(log0) or c2['log'][k][0] + G.DATA != bound or any(o + s > bound - G.DATA for o, s, _ in c2['log'][:k]) \
+                or any(o + G.DATA < bound for o, s, _ in c2['log'][k:]):
             count('probe.k-skipped-shift-not-uniform')
             continue
         log = c2['log']
         # is access k really denied under this denial kind?  (model)
         regs = MPU.regions_from_sys(shifted['regs']['sys'])
-        dec, reg = MPU.decide(regs, 1, 0, BOUND, priv and not _is_unpriv(cls), bool(wr_k))
+        dec, reg = MPU.decide(regs, 1, 0, bound, priv and not _is_unpriv(cls), bool(wr_k))
         # the first access (from k on) that the model denies; with read-only kinds the loads of an instruction pass
         first = None
         for j in range(k, len(log)):
@@ -487,7 +493,7 @@ def run_deny(case):
         changed = [x for x in range(len(init)) if init[x] != mem[x]]
         bad = [x for x in changed if x not in allowed_bytes]
         if bad:
-            viol.append({'oracle': 'mpu.deny', 'site': site, 'cls': 'byte_changed_in_denied_region' if bad[0] + G.DATA >= BOUND else 'byte_changed_outside_footprint', 'tick': k,
+            viol.append({'oracle': 'mpu.deny', 'site': site, 'cls': 'byte_changed_in_denied_region' if bad[0] + G.DATA >= bound else 'byte_changed_outside_footprint', 'tick': k,
                          'detail': '%s k=%d: byte %#x changed at the abort (%#x -> %#x)' % (cls, j, G.DATA + bad[0], init[bad[0]], mem[bad[0]])})
             break
         # (d) no base-register write-back, and for single-access instructions no register change at all
